@@ -283,8 +283,16 @@ package fiber
 //@ macro chosen() = last((*DefaultCtx).Accepts)
 // (handlers[same(k)] in the "every handler type is offered" clauses: trigger discipline as in noneLost above - the
 // two forall-exists facts about types/handlers would otherwise instantiate each other without end.)
+// [C07] (contract strengthened after fix 9da45f1: the precondition `media-types-one-line` - every handlers[k].MediaType
+// free of CR/LF - is GONE, with the two loop invariants that only carried it. A media type is a value the handler passes
+// to a response helper: Format has to cope with any string. It reaches the response only through (*DefaultCtx).Set, which
+// blanks control bytes; the setters of fasthttp that write a value verbatim are not called.)
 //@ func (*DefaultCtx).Format
-//@   requires media-types-one-line: forall(k, 0, len(handlers), noCRLF(handlers[k].MediaType))
+//@   props C09 C07
+//@   atcall ResFmt.Handler: [C07] no-handler-media-type-adds-a-header-line: !called(@fasthttp.(*ResponseHeader).SetContentType) && !called(@fasthttp.(*ResponseHeader).SetContentTypeBytes) && !called(@fasthttp.(*ResponseHeader).SetCanonical) && !called(@fasthttp.(*ResponseHeader).SetBytesV)
+//@   atcall (*DefaultCtx).Set: [C07] content-type-is-the-media-type-of-the-handler-that-runs: c == old(c) && key == "Content-Type" && ((!called((*DefaultCtx).Accepts) && val == handlers[0].MediaType) || (called((*DefaultCtx).Accepts) && val == chosen()))
+//@   atcall ResFmt.Handler: [C07] first-or-negotiated-handler-runs-with-its-content-type-set: !called((*DefaultCtx).Accepts) || chosen() != "" ==> called((*DefaultCtx).Set)
+//@   ensures [C07] no-handler-media-type-adds-a-header-line: !called(@fasthttp.(*ResponseHeader).SetContentType) && !called(@fasthttp.(*ResponseHeader).SetContentTypeBytes) && !called(@fasthttp.(*ResponseHeader).SetCanonical) && !called(@fasthttp.(*ResponseHeader).SetBytesV)
 //@   ensures no-handlers-error: len(handlers) == 0 ==> result == ErrNoHandlers
 //@   ensures vary-accept-always: len(handlers) > 0 ==> called((*DefaultCtx).Vary)
 //@   atcall (*DefaultCtx).Vary: vary-accept: len(fields) == 1 && fields[0] == "Accept"
@@ -300,14 +308,12 @@ package fiber
 //@   atcall @fmt.Errorf: chosen-type-always-has-a-handler: false
 //@   loop 1
 //@     invariant index-range: rangeindex + 1 <= len(handlers)
-//@     invariant media-types-one-line: forall(k, 0, len(handlers), noCRLF(handlers[k].MediaType))
 //@     invariant offers-are-handler-types: forall(t, 0, len(types), types[t] != "default" && exists(k, 0, rangeindex + 1, handlers[k].MediaType == types[t]))
 //@     invariant seen-handler-types-offered: forall(k, 0, rangeindex + 1, handlers[same(k)].MediaType != "default" ==> exists(t, 0, len(types), types[t] == handlers[same(k)].MediaType))
 //@     invariant default-is-last-default-seen: forall(k, 0, rangeindex + 1, lastDefault(handlers, rangeindex + 1, k) ==> defaultHandler == handlers[k].Handler)
 //@     invariant default-is-a-default-handler: defaultHandler != nil ==> exists(k, 0, rangeindex + 1, handlers[k].MediaType == "default" && handlers[k].Handler == defaultHandler)
 //@   loop 2
 //@     invariant index-range: rangeindex + 1 <= len(handlers)
-//@     invariant media-types-one-line: forall(k, 0, len(handlers), noCRLF(handlers[k].MediaType))
 //@     invariant chosen-type-has-a-handler: exists(k, 0, len(handlers), handlers[k].MediaType == accept)
 //@     invariant not-found-so-far: forall(k, 0, rangeindex + 1, handlers[k].MediaType != accept)
 
